@@ -43,10 +43,8 @@ func BuildOverlay(repoDir, harnessDir string) (map[string][]byte, map[string]str
 		dir := filepath.Dir(rel)
 		var vdir string
 		switch {
-		case dir == "_rt":
-			vdir = "internal/verifrt"
-		case dir == "_models":
-			vdir = "internal/verifmodels"
+		case strings.HasPrefix(dir, "_"):
+			vdir = "internal/verif" + dir[1:]
 		default:
 			vdir = dir
 		}
